@@ -337,9 +337,9 @@ Proof.
     + inv_some Hs; constructor; simpl; auto; jinv_thr J2 T.
     + inv_some Hs; constructor; simpl; auto; jinv_thr J2 T.
       destruct (a_joinword s) eqn:Ej; [reflexivity|discriminate].
-    + destruct (a_joinword s) eqn:Ej; inv_some Hs; constructor; simpl; auto;
-        intros u Hu; unfold upd in Hu; destruct (Nat.eqb_spec u T); subst; simpl in Hu;
-        try discriminate; try reflexivity; try (exact (J2 u Hu)).
+    + destruct (a_joinword s) eqn:Ej; inv_some Hs; constructor; simpl; rewrite ?Ej; auto;
+        try (intros u Hu; unfold upd in Hu; destruct (Nat.eqb_spec u T); subst; simpl in Hu;
+             try discriminate; try reflexivity; exact (J2 u Hu)).
     + inv_some Hs; constructor; simpl; auto; jinv_thr J2 T. apply (J2 T). rewrite Epc. reflexivity.
     + inv_some Hs; constructor; simpl; auto; jinv_thr J2 T. apply (J2 T). rewrite Epc. reflexivity.
     + inv_some Hs; constructor; simpl; auto; [jinv_thr J2 T|]. intros _. apply (J2 T). rewrite Epc. reflexivity.
